@@ -383,7 +383,9 @@ theorem createFile_gs (env) : ∀ fuel d path, DirOK fs0 d →
     · refine GS.bind (findEntry_gs hfit env hd _ _) (fun e _ => ?_)
       refine GS.bind (DirEntry.toDir_gs hfs e) (fun sub hsub => ?_)
       exact thenDrop_gs _ (ih _ _ hsub)
-    · refine GS.bind (checkForExistence_gs hfit env hd _ _) (fun r _ => ?_)
+    · split
+      · exact GS.fail _
+      refine GS.bind (checkForExistence_gs hfit env hd _ _) (fun r _ => ?_)
       split
       · refine GS.bind (createSfnEntry_gs _ _ _) (fun sfn _ => ?_)
         refine GS.bind (writeEntry_gs hfit hd _ _) (fun e _ => ?_)
@@ -406,7 +408,9 @@ theorem createDir_gs (env) : ∀ fuel d path, DirOK fs0 d →
       exact thenDrop_gs _ (ih _ _ hsub)
     · refine GS.bind (checkForExistence_gs hfit env hd _ _) (fun r _ => ?_)
       split
-      · refine GS.bind (liftE_gs _) (fun _ _ => ?_)
+      · split
+        · exact GS.fail _
+        refine GS.bind (liftE_gs _) (fun _ _ => ?_)
         refine GS.bind (allocClusterFs_gs hfit _ _) (fun cluster _ => ?_)
         refine GS.bind (createSfnEntry_gs _ _ _) (fun sfn _ => ?_)
         refine GS.bind (Q := fun _ => True) ?_ (fun r _ => ?_)
@@ -455,7 +459,9 @@ theorem remove_gs (env) : ∀ fuel d path, DirOK fs0 d →
     · refine GS.bind (findEntry_gs hfit env hd _ _) (fun e _ => ?_)
       refine GS.bind (DirEntry.toDir_gs hfs e) (fun sub hsub => ?_)
       exact thenDrop_gs _ (ih _ _ hsub)
-    · refine GS.bind (findEntry_gs hfit env hd _ _) (fun e _ => ?_)
+    · split
+      · exact GS.fail _
+      refine GS.bind (findEntry_gs hfit env hd _ _) (fun e _ => ?_)
       refine GS.bind (Q := fun _ => True) ?_ (fun nonEmpty _ => ?_)
       · split
         · refine GS.bind (DirEntry.toDir_gs hfs e) (fun sub hsub => ?_)
@@ -495,6 +501,8 @@ theorem ancestorWalkTop_gs (env target) {dst : DirStream} (hdst : DirOK fs0 dst)
 theorem renameInternal_gs (env) {d dst : DirStream} (hd : DirOK fs0 d) (hdst : DirOK fs0 dst) (srcName dstName) :
     GS fs0 sz (WClass fs0) (renameInternal env d srcName dst dstName) (fun _ => True) := by
   unfold renameInternal
+  split
+  · exact GS.fail _
   refine GS.bind GS.getFs (fun fs hfs => ?_)
   refine GS.bind (findEntry_gs hfit env hd _ _) (fun e _ => ?_)
   refine GS.bind (liftE_gs _) (fun _ _ => ?_)
@@ -507,8 +515,8 @@ theorem renameInternal_gs (env) {d dst : DirStream} (hd : DirOK fs0 d) (hdst : D
     · split
       · exact GS.pure trivial
       · exact GS.fail _
-    · refine GS.bind (deleteEntry_gs hfit hd e) (fun _ _ => ?_)
-      refine GS.bind (writeEntry_gs hfit hdst _ _) (fun newEntry _ => ?_)
+    · refine GS.bind (writeEntry_gs hfit hdst _ _) (fun newEntry _ => ?_)
+      refine GS.bind (deleteEntry_gs hfit hd e) (fun _ _ => ?_)
       split
       · try dsimp only
         refine GS.bind (DirEntry.toDir_gs hfs newEntry) (fun moved hmoved => ?_)
